@@ -102,7 +102,7 @@ func unspill(v ssa.Value) ssa.Value {
 }
 
 func checkC09(c *core.Ctx, l *core.Ledger) {
-	l.Explanation = "Static clauses of C09 on package compile (and gen/constant.go): (NARROW) every integer conversion to a narrower type whose operand comes from the source text (AST numbers, ConstantInt) is dominated by tests of both bounds of the target type, unless its result only feeds an equality comparison performed in the wider type; (INT-ACCEPT) ConstantInt.Link accepts a value for i8/i16/i32 only under a range test for that width; (UNIQUE) every insertion into a struct's fields, an enum's items, a service's functions and a module's types/constants/services/includes is dominated by a successful claim of the name (and, for fields, by the used-id test), and claim fails iff the transformed name is present. (SELF-REF) Constant.Link and ServiceSpec.Link set an in-progress flag before any nested Link/resolve call and report an error when re-entered while it is set, so a constant or service defined in terms of itself (directly or through others) is rejected. (ERR-KEEP) no error value is lost: none is assigned to a variable that is never read (an inner declaration shadowing the checked one), none is overwritten by the next loop iteration unseen, and no deferred function replaces the error result without regard to the error already there. (LEX-NUM) every strconv.ParseInt in the scanner uses base 10, or 16 under the test for the 0x prefix, with 64 bits — a literal such as 010 is ten, not eight. NOT decided: implicit enum numbering arithmetic (prev+1 overflow), lexer/parser handling of out-of-range literals, termination on self-referential typedefs/defaults (C08)."
+	l.Explanation = "Static clauses of C09 on package compile (and gen/constant.go): (NARROW) every integer conversion to a narrower type whose operand comes from the source text (AST numbers, ConstantInt) is dominated by tests of both bounds of the target type, unless its result only feeds an equality comparison performed in the wider type; (INT-ACCEPT) ConstantInt.Link accepts a value for i8/i16/i32 only under a range test for that width; (UNIQUE) every insertion into a struct's fields, an enum's items, a service's functions and a module's types/constants/services/includes is dominated by a successful claim of the name (and, for fields, by the used-id test), and claim fails iff the transformed name is present. (SELF-REF) Constant.Link and ServiceSpec.Link set an in-progress flag before any nested Link/resolve call and report an error when re-entered while it is set, so a constant or service defined in terms of itself (directly or through others) is rejected. (ERR-KEEP) no error value is lost: none is assigned to a variable that is never read (an inner declaration shadowing the checked one), none is overwritten by the next loop iteration unseen, and no deferred function replaces the error result without regard to the error already there. (LEX-NUM) every strconv.ParseInt in the scanner uses base 10, or 16 under the test for the 0x prefix, with 64 bits — a literal such as 010 is ten, not eight. (TYPE-IDENTITY) whether a constant needs a cast, and so reaches the range check of its declared type, is decided by type identity, never by equal names. NOT decided: implicit enum numbering arithmetic (prev+1 overflow), lexer/parser handling of out-of-range literals, termination on self-referential typedefs/defaults (C08)."
 	l.RuleText = "one obligation per narrowing conversion / accepting arm / insertion site"
 	l.Assumptions = []string{"ast.Field.ID, *ast.EnumItem.Value and ast.ConstantInteger hold exactly the number written in the source (parser is trusted here; C11 covers it thinly)"}
 
@@ -510,6 +510,9 @@ func checkUnique(c *core.Ctx, l *core.Ledger) {
 	// the number in the program is the number written in the source: integer tokens are read in base 10 (16 under 0x)
 	checkLexNumbers(c, l)
 	checkErrKeep(c, l, "ERR-KEEP", []string{"compile", "idl", "idl/internal"})
+	// a constant reaches the range checks of its declared type through a cast; whether a cast is needed is decided by
+	// type identity: two types are the same only if they are the same object, never because their names agree
+	checkTypeIdentity(c, l, "TYPE-IDENTITY", []string{"compile"})
 }
 
 // narrowSkip: generated scanner/parser tables are outside the rule.
